@@ -438,30 +438,46 @@ def check_c03(idx: Index, tier: str, res: Result) -> None:
                   "the grammar can emit the operator %r but py.operators has no entry for it: such equations raise 'Unknown Operator'" % s,
                   key="VOCAB/missing/%s" % s)
     binary = {}
-    for name, r in ops.items():
+    for r in [x for x in renderers if x.kind == "operator"]:       # every path of every operator's renderer
         holes = [h for _, h in hole_keys(r.parts)]
         if len(holes) == 2:
-            binary[name] = r
+            binary.setdefault(r.name, []).append(r)
+        elif r.name in XMILE_OPS:
+            binary.setdefault(r.name, [])
+            res.check("VOCAB", "operator %r is binary on every path" % r.name, False, r.loc, "operators[%r]" % r.name, r.text[:80],
+                      "one way operator %r is rendered does not have two operands: %s" % (r.name, r.text[:80]), key="VOCAB/%s/arity" % r.name)
     for name, (tok, cls, assoc) in XMILE_OPS.items():
-        if name not in binary:
+        if not binary.get(name):
             res.check("VOCAB", "operator %r is binary" % name, False, PY, "operators", name, "operator %r has no two-operand template" % name,
                       key="VOCAB/%s/arity" % name)
             continue
-        r = binary[name]
-        names = {"lhs": "L", "rhs": "R"}
-        roles = [role for role, _ in hole_keys(r.parts)]
-        nm = {roles[0]: "L", roles[1]: "R"}
-        txt = render(r.parts, "t", nm)
-        ok = " ".join(txt.split()) == "L %s R" % tok
-        res.check("FLAT", "%r -> 'L %s R'" % (name, tok), ok, r.loc, "operators[%r]" % name, txt,
-                  "the XMILE operator %r is emitted as %r; the reference mapping is 'L %s R' with operands in source order and no "
-                  "parentheses (flattening must preserve the token sequence)" % (name, txt, tok), key="FLAT/%s" % name)
-        want_roles = ["lhs", "rhs"]
-        res.check("FLAT", "%r operands in source order" % name, roles == want_roles, r.loc, "operators[%r]" % name, str(roles),
-                  "operands of %r are emitted in the order %s" % (name, roles), key="FLAT/%s/order" % name)
+        for r in binary[name]:
+            names = {"lhs": "L", "rhs": "R"}
+            roles = [role for role, _ in hole_keys(r.parts)]
+            nm = {roles[0]: "L", roles[1]: "R"}
+            txt = render(r.parts, "t", nm)
+            ok = " ".join(txt.split()) == "L %s R" % tok
+            res.check("FLAT", "%r -> 'L %s R'" % (name, tok), ok, r.loc, "operators[%r]" % name, txt,
+                      "the XMILE operator %r is emitted as %r; the reference mapping is 'L %s R' with operands in source order and no "
+                      "parentheses (flattening must preserve the token sequence)" % (name, txt, tok), key="FLAT/%s" % name)
+            want_roles = ["lhs", "rhs"]
+            res.check("FLAT", "%r operands in source order" % name, roles == want_roles, r.loc, "operators[%r]" % name, str(roles),
+                      "operands of %r are emitted in the order %s" % (name, roles), key="FLAT/%s/order" % name)
+    # every way the '()' node is rendered (a renderer with several paths gives several templates): parentheses on each, except
+    # where the path is taken only for IR kinds that are self-delimiting text (identifier / call) - a number is not: the grammar
+    # folds a leading '-' into the literal, so ( -3 ) ^ 2 without its parentheses is -3.0 ** 2.0
+    pars = [r for r in renderers if r.kind == "operator" and r.name == "()"]
     par = ops.get("()")
-    ok = par is not None and "".join(render(par.parts, "t", {role: "B" for role, _ in hole_keys(par.parts)}).split()) == "(B)"
-    res.check("FLAT", "'()' -> '( B )'", ok, par.loc if par else PY, "operators['()']", par.text if par else "", "the parenthesis node does not emit parentheses",
+    ok = bool(pars)
+    bad_par = None
+    for r_ in pars:
+        txt_ = "".join(render(r_.parts, "t", {role: "B" for role, _ in hole_keys(r_.parts)}).split())
+        ctext = " ".join(str(c) for c in (r_.conds or []))
+        self_delimiting_only = ("identifier" in ctext or "call" in ctext) and not any(w in ctext for w in ("float", "int", "number"))
+        if txt_ != "(B)" and not (txt_ == "B" and self_delimiting_only):
+            ok, bad_par = False, r_
+    res.check("FLAT", "'()' -> '( B )' on every path", ok, (bad_par or par).loc if (bad_par or par) else PY, "operators['()']", (bad_par or par).text if (bad_par or par) else "",
+              "the parenthesis node does not emit parentheses%s" % ((" when " + " and ".join(str(c) for c in bad_par.conds)[:120]) if bad_par is not None and bad_par.conds else ""),
               key="FLAT/()")
     nt = ops.get("not")
     ok = nt is not None and "".join(render(nt.parts, "t", {role: "B" for role, _ in hole_keys(nt.parts)}).split()) == "(notB)"
@@ -473,7 +489,7 @@ def check_c03(idx: Index, tier: str, res: Result) -> None:
     mism: Dict[str, Tuple[str, str, str]] = {}
     for n1, (t1, c1, a1) in XMILE_OPS.items():
         for n2, (t2, c2, a2) in XMILE_OPS.items():
-            if n1 not in binary or n2 not in binary:
+            if not binary.get(n1) or not binary.get(n2):
                 continue
             # boolean operators join comparisons in the grammar; arithmetic/comparison operands are atoms here
             text = "a %s b %s c" % (t1, t2)
@@ -556,7 +572,7 @@ def check_c03(idx: Index, tier: str, res: Result) -> None:
                 continue
             bad = None
             for opname in ("*", "-", "^"):
-                o = binary[opname]
+                o = binary[opname][0]
                 roles = [role for role, _ in hole_keys(o.parts)]
                 nm = {roles[0]: "L", roles[1]: "R"}
                 base = parse_expr(render(o.parts, "t", nm))
@@ -575,6 +591,7 @@ def check_c03(idx: Index, tier: str, res: Result) -> None:
     _builtin_shapes(res, renderers)
 
     _time_shift_builtins(idx, res)
+    res.floor("argument-list comprehensions in the built-in adapters", _arg_filters(idx, res, "ARGS"), 6)
     _paren_nodes(idx, res)
 
     # ---- (5) loud failure --------------------------------------------------------------------------------------------------------
@@ -698,6 +715,47 @@ def check_c03(idx: Index, tier: str, res: Result) -> None:
 # ---------------------------------------------------------------------------
 # explicit parentheses survive the PEG visitor
 # ---------------------------------------------------------------------------
+
+def _arg_filters(idx: Index, res: Result, rule: str) -> int:
+    """ARGS: the adapters of the variadic built-ins (SUM, MIN, MAX, ...) render every argument.  A filter in the comprehension
+    that walks the argument list may remove separator *strings* only: a test of the argument's truth value (or against a number)
+    also removes a literal 0 - MAX(0, x), which is what a non-negative flow is turned into, would lose its floor."""
+    n = 0
+    for q, fi in idx.module(PY).functions.items():
+        if fi.cls or "." in q:
+            continue
+        for comp in [c for c in ast.walk(fi.node) if isinstance(c, (ast.ListComp, ast.GeneratorExp)) and len(c.generators) == 1]:
+            g = comp.generators[0]
+            if not (isinstance(g.target, ast.Name) and any(isinstance(x, ast.Call) and call_name(x) == "parseExpression" for x in ast.walk(comp.elt))):
+                continue
+            n += 1
+            var = g.target.id
+            bad = None
+            for cond in g.ifs:
+                atoms = []
+                stack = [cond]
+                while stack:
+                    e = stack.pop()
+                    if isinstance(e, ast.BoolOp):
+                        stack.extend(e.values)
+                    elif isinstance(e, ast.UnaryOp) and isinstance(e.op, ast.Not):
+                        stack.append(e.operand)
+                    else:
+                        atoms.append(e)
+                for a in atoms:
+                    ok_atom = isinstance(a, ast.Compare) and len(a.ops) == 1 and isinstance(a.left, ast.Name) and a.left.id == var and (
+                        (isinstance(a.ops[0], (ast.Eq, ast.NotEq)) and const_str(a.comparators[0]) is not None) or
+                        (isinstance(a.ops[0], (ast.In, ast.NotIn)) and (
+                            (isinstance(a.comparators[0], (ast.Tuple, ast.List, ast.Set)) and all(const_str(x) is not None for x in a.comparators[0].elts))
+                            or (isinstance(a.comparators[0], ast.Constant) and isinstance(a.comparators[0].value, str)))))
+                    if not ok_atom and any(isinstance(x, ast.Name) and x.id == var for x in ast.walk(a)):
+                        bad = a
+            res.check(rule, "%s renders every argument" % q, bad is None, fi.loc(comp), fi.qual, src(comp)[:100],
+                      "%s drops the arguments for which `%s` fails: that test is not a comparison with a separator string, so it also removes "
+                      "numeric arguments such as a literal 0 (MAX(0, x) loses its floor)" % (q, src(bad)[:50] if bad is not None else ""),
+                      key="%s/%s/argument-filter" % (rule, q))
+    return n
+
 
 def _paren_nodes(idx: Index, res: Result) -> None:
     """PAREN: the generator flattens the IR to text, so a parenthesised sentence keeps its grouping only through the '()' node that
@@ -988,12 +1046,25 @@ def jinja_methods(idx: Index) -> Tuple[Dict[str, ast.FunctionDef], List[str]]:
     for ch in chunks:
         srctext = textwrap.dedent("\n".join(ch))
         name = re.match(r"def (\w+)", srctext).group(1)
-        try:
-            import warnings
-            with warnings.catch_warnings():
-                warnings.simplefilter("ignore")
-                out[name] = ast.parse(srctext).body[0]
-        except SyntaxError:
+        import warnings
+        parsed = None
+        text_ = re.sub(r"\{%.*?%\}", "", srctext)            # inline template tags
+        text_ = re.sub(r"\{#.*?#\}", "", text_, flags=re.S)
+        for _attempt in range(40):                             # lines that are template-only text (comments, markup) are blanked one by one
+            try:
+                with warnings.catch_warnings():
+                    warnings.simplefilter("ignore")
+                    parsed = ast.parse(text_).body[0]
+                break
+            except SyntaxError as e:
+                ls = text_.split("\n")
+                if not e.lineno or e.lineno > len(ls) or not ls[e.lineno - 1].strip() or e.lineno == 1:
+                    break
+                ls[e.lineno - 1] = ""
+                text_ = "\n".join(ls)
+        if parsed is not None:
+            out[name] = parsed
+        else:
             failed.append(name)
     # the same analysis view as for the package's own modules: idioms normalised, unknown helpers looked through
     from ..inline import canonicalise, inline_module, load_vocab
@@ -1381,6 +1452,11 @@ def check_c04(idx: Index, tier: str, res: Result) -> None:
     mx = one("max", lambda r: any("len(args) > 1" in c and v for c, v in r.conds))
     txt = render(mx.parts, "t", {role: "A" for role, _ in hole_keys(mx.parts)}, rep_n=2)
     ok = nf(parse_expr(txt)) == nf(parse_expr("max([A_0, A_1])"))
+    _arg_filters(idx, res, "NONNEG")
+    # "for any dt": the engine sweeps the grid of the model it simulates - the dt the generated equations integrate with is the dt the
+    # rows are reported at (shared with C01/C05/C09)
+    from .sddsl_templates import _sweep as _engine_sweep
+    _engine_sweep(idx, res)
     res.check("NONNEG", "max of two arguments is rendered as max([a, b])", ok, mx.loc, "builtins['max']", txt, "MAX(a, b) is generated as %s" % txt, key="NONNEG/max-template")
     # every scenario of a transpiled model integrates on its own model object (its memo is keyed by time only, not by run spec)
     from .scenarios import model_per_scenario_rule
